@@ -19,7 +19,6 @@ Reference (written from the property text, never from the code):
     (the lower bound is the semantic one), so every expectation is an interval lo <= observed <= hi.
 Weak-reference liveness of the input values is used for the two "holds / keeps alive" clauses."""
 import contextlib
-import gc
 import io
 import itertools
 import json
@@ -270,6 +269,8 @@ def build_branch(b):
 class _SrcBranch(object):
     """own flow of a Source branch: ((start + j, 'S'), {}), infinite, lazily generated"""
 
+    produced = [0]
+
     def __init__(self, start):
         self.start = start
 
@@ -277,6 +278,7 @@ class _SrcBranch(object):
         for j in itertools.count(self.start):
             if j - self.start >= BUDGET:
                 raise Budget()
+            self.produced[0] += 1
             yield ((j, "S"), {})
 
 
@@ -634,11 +636,28 @@ def unique_counters(pipe):
     return walk(pipe)
 
 
+class IterOnly(object):
+    """an iterable that is not an iterator (like a list, but lazy): only __iter__"""
+
+    def __init__(self, src):
+        self.src = src
+
+    def __iter__(self):
+        return self.src
+
+
 def make_iter(pipe, src, mode):
-    """build the pipeline and call run(): returns the result iterator"""
+    """build the pipeline and call run(): returns the result iterator.
+    modes: sequence / source: Sequence(*els).run(iterator), Source(callable returning the iterator, *els)();
+    sequence-iterable / source-iterable: the input is an iterable without __next__"""
+    els = [build(d) for d in pipe]
     if mode == "source":
-        return Source(lambda: src, *[build(d) for d in pipe])()
-    return Sequence(*[build(d) for d in pipe]).run(src)
+        return Source(lambda: src, *els)()
+    if mode == "source-iterable":
+        return Source(IterOnly(src), *els)()
+    if mode == "sequence-iterable":
+        return Sequence(*els).run(IterOnly(src))
+    return Sequence(*els).run(src)
 
 
 def _close(it):
@@ -691,14 +710,14 @@ def _check_pipeline(pipe, n, mode, stops, bad):
         it = make_iter(pipe, src, mode)
     except Budget:
         bad.append(("work-before-first-demand", "construction and %s drain the infinite input"
-                    % ("run()" if mode == "sequence" else "__call__()")))
+                    % ("run()" if mode.startswith("sequence") else "__call__()")))
         return
     except Exception as e:
         bad.append(("exception", "building/run(): %s: %s" % (type(e).__name__, e)))
         return
     if src.calls or WORK[0] or STDOUT.tell():
         bad.append(("work-before-first-demand", "after construction and %s the input was asked %d times, user code ran "
-                    "%d times, %d characters were printed" % ("run()" if mode == "sequence" else "__call__()",
+                    "%d times, %d characters were printed" % ("run()" if mode.startswith("sequence") else "__call__()",
                                                              src.calls, WORK[0], STDOUT.tell())))
         return
     # ---- one full consumption, the state of the input is recorded after every result
@@ -807,12 +826,14 @@ BAD_KINDS = set()
 
 def culprit(pipe, mode):
     kinds = [kind_of(d) for d in pipe]
+    if not pipe:
+        return "Sequence.run" if mode.startswith("sequence") else "Source.__call__"
     if len(pipe) == 1:
         return kinds[0]
     for k in kinds:
         if k in BAD_KINDS:
             return k
-    return "Sequence.run" if mode == "sequence" else "Source.__call__"
+    return "Sequence.run" if mode.startswith("sequence") else "Source.__call__"
 
 
 def report(R, pipe, n, mode, bad):
@@ -865,13 +886,16 @@ SINGLES = [
     ["runif", "even", [["split", 1, True, [["el", FA], ["el", FB]]]]], ["runif", "ge2", [FA, S(1)]],
 ] + SPLITS
 PAIR_QUICK = [
-    FA, ["var", "V"], ["filter", "even"], ["filter", "lt3"], ["count", "c1"], S(3), S(1, 5, 2), S(2, None),
-    S(-2), S(1, -1), S(-2, None), S(-3, 2), ["runif", "even", [["split", 1, True, [["el", FA], ["el", FB]]]]],
-    ["print"], ["updctx"],
-    SPLITS[0], SPLITS[2], SPLITS[4], SPLITS[5], SPLITS[8], SPLITS[10],
+    FA, ["var", "V"], ["filter", "even"], ["filter", "lt3"], ["filter", "none"], ["count", "c1"],
+    S(0), S(3), S(1, 5, 2), S(2, None), S(None, None, 2),
+    S(-2), S(1, -1), S(None, -1, 2), S(-2, None), S(-3, 2), S(-3, -1),
+    ["runif", "even", [["split", 1, True, [["el", FA], ["el", FB]]]]], ["runif", "m3", [["filter", "none"]]],
+    ["runif", "all", [["count", "c2"]]],
+    ["print"], ["context"], ["updctx"], ["mkfn"], ["ucfs"],
+    SPLITS[0], SPLITS[2], SPLITS[3], SPLITS[4], SPLITS[5], SPLITS[6], SPLITS[8], SPLITS[9], SPLITS[10], SPLITS[11],
 ]
 TRIPLE = [FA, ["filter", "even"], ["count", "c1"], S(3), S(1, None, 2), S(-1), S(-2, None), SPLITS[2], SPLITS[5],
-          ["runif", "m3", [FA, FB]]]
+          ["runif", "m3", [FA, FB]], S(1, -1), ["filter", "lt3"], SPLITS[8], SPLITS[10], ["var", "V"], S(1, 5, 2)]
 
 
 def lengths(tier_thorough):
@@ -1046,6 +1070,19 @@ def replay_split_live(name, bufsize, copy_buf, n):
 
 
 # ------------------------------------------------------------------------- infinite Sources, Slice(n) terminates
+class _Num(float):
+    """a number whose additions are counted: itertools.count (CountFrom) computes one value per addition"""
+    adds = [0]
+
+    def __add__(self, other):
+        self.adds[0] += 1
+        if self.adds[0] > 50 * BUDGET:
+            raise Budget()
+        return _Num(float.__add__(self, other))
+
+    __radd__ = __add__
+
+
 def infinite_source_case(which, n_stop):
     """a Slice(n) placed after an infinite Source terminates and generates nothing beyond; list of (clause, text)"""
     bad = []
@@ -1059,9 +1096,10 @@ def infinite_source_case(which, n_stop):
             yield ((i,), {})
 
     if which == "CountFrom":
-        s = Source(CountFrom(5, 3), Slice(n_stop))
-        expected = [5 + 3 * j for j in range(n_stop)]
-        view = lambda v: v
+        _Num.adds[0] = 0
+        s = Source(CountFrom(_Num(5), _Num(3)), Slice(n_stop))
+        expected = [5.0 + 3 * j for j in range(n_stop)]
+        view = float
     elif which == "generator":
         s = Source(gen, tagger("a"), Slice(n_stop))
         expected = [(j, "a") for j in range(n_stop)]
@@ -1071,9 +1109,10 @@ def infinite_source_case(which, n_stop):
         expected = [(2 * j, "a") for j in range(n_stop)]
         view = lambda v: v[0]
     elif which == "split-with-infinite-source-branch":
-        s = Source(gen, Split([Source(CountFrom(100)), tagger("a")], bufsize=2), Slice(n_stop))
-        expected = [100 + j for j in range(n_stop)]
-        view = lambda v: v
+        _SrcBranch.produced[0] = 0
+        s = Source(gen, Split([Source(_SrcBranch(100)), tagger("a")], bufsize=2), Slice(n_stop))
+        expected = [(100 + j, "S") for j in range(n_stop)]
+        view = lambda v: v[0]
     elif which == "nested-source":
         s = Source(Source(gen, tagger("a")), Slice(n_stop), tagger("b"))
         expected = [(j, "a", "b") for j in range(n_stop)]
@@ -1101,6 +1140,11 @@ def infinite_source_case(which, n_stop):
     elif need is not None and made[0] != need:
         bad.append(("pulled-more-than-needed" if made[0] > need else "pulled-less-than-determining-prefix",
                     "%d values generated, %d determine the %d results" % (made[0], need, n_stop)))
+    elif which == "CountFrom" and _Num.adds[0] > n_stop + 1:
+        bad.append(("pulled-more-than-needed", "CountFrom computed %d values for Slice(%d)" % (_Num.adds[0], n_stop)))
+    elif which == "split-with-infinite-source-branch" and _SrcBranch.produced[0] != n_stop:
+        bad.append(("pulled-more-than-needed", "the infinite Source branch of the Split generated %d values for Slice(%d)"
+                    % (_SrcBranch.produced[0], n_stop)))
     return bad
 
 
@@ -1146,7 +1190,9 @@ def rand_element(rng, depth):
                 branches.append(["el", [rng.choice(["f", "obj"]), rng.choice("abxy")]])
             elif q < 0.85:
                 branches.append(["src", rng.choice([50, 100]), rng.randint(0, 3)])
-            else:
+            elif depth == 0:
+                # (a nested Split is run once per block / value and a Slice behind it may abandon a run half-way: the
+                # state a fill-compute branch then carries into the next run is C03's matter, not modelled here)
                 branches.append(["fc", rng.choice([None, 0, 1, 3])])
         # copy_buf=False lets a Count branch mark the context another branch yields (documented sharing, C04's matter)
         copy_buf = rng.random() < 0.7 or '"count"' in json.dumps(branches)
@@ -1171,30 +1217,32 @@ def body(R):
 
     ns = lengths(T)
     R.scope("single streaming elements: Sequence(e).run(input) and Source(input, e)()",
-            "%d element instances (callable, callable object, Variable, Print, Context, UpdateContext, MakeFilename, "
+            "the input as an iterator and as an iterable without __next__; the empty pipeline and %d element instances (callable, callable object, Variable, Print, Context, UpdateContext, MakeFilename, "
             "UpdateContextFromStatic, 6 Filters, Count, 11 non-negative and 12 negative Slices, 5 RunIf, 15 Splits incl. "
             "bufsize 1/2/3/4/1000/None, Source / fill-compute / Slice / Count / nested-Split branches); input lengths %s "
             "(None = infinite with a %d-pull watchdog, %d results taken); every consumer stop point k = 0..all results "
             "and exhaustion; after each k: (pulled, end probed) within the determining-prefix interval"
             % (len(SINGLES), ns, BUDGET, K_INF), True)
-    run_scope([[d] for d in SINGLES], ns, ["sequence", "source"])
+    run_scope([[]] + [[d] for d in SINGLES], ns, ["sequence", "source", "sequence-iterable", "source-iterable"])
 
     pair = SINGLES if T else PAIR_QUICK
-    ns2 = [0, 1, 2, 3, 5, 7, None] if T else [0, 3, 5, None]
+    ns2 = [0, 1, 2, 3, 4, 5, 7, None] if T else [0, 3, 5, None]
     R.scope("pipelines of two streaming elements",
             "all ordered pairs of %d element instances; input lengths %s; every consumer stop point and exhaustion"
             % (len(pair), ns2), True)
     run_scope([[a, b] for a in pair for b in pair], ns2, ["sequence"])
 
-    tri = TRIPLE if T else TRIPLE[:6]
-    ns3 = [0, 2, 5, None] if T else [4, None]
+    tri = TRIPLE if T else TRIPLE[:8]
+    ns3 = [0, 1, 2, 3, 5, 6, None] if T else [4, None]
     R.scope("pipelines of three streaming elements",
-            "all ordered triples of %d element instances (callable, Filter, Count, Slice(3), Slice(1,None,2), Slice(-1)%s); "
+            "all ordered triples of %d element instances (callable, Filter, Count, Slice(3), Slice(1,None,2), Slice(-1), "
+            "Slice(-2,None)%s); "
             "input lengths %s; every consumer stop point and exhaustion"
-            % (len(tri), ", Slice(-2,None), two Splits, RunIf" if T else "", ns3), True)
-    run_scope([[a, b, c] for a in tri for b in tri for c in tri], ns3, ["sequence"], stops=T)
+            % (len(tri), ", two Splits%s" % (", RunIf, Slice(1,-1), Filter(<3), Split with Source / fill-compute branch, "
+                                              "Variable, Slice(1,5,2)" if T else ""), ns3), True)
+    run_scope([[a, b, c] for a in tri for b in tri for c in tri], ns3, ["sequence"])
 
-    n_rand = 6000 if T else 500
+    n_rand = 40000 if T else 2500
     R.scope("random pipelines",
             "%d random pipelines of 1..4 elements (nested RunIf / Split to depth 2, Source and fill-compute branches, "
             "bufsize in {1,2,3,4,1000,None}, Slice indices in {None,0,1,2,3,5,-1,-2,-3}, step {None,1,2,3}), input length "
